@@ -67,7 +67,7 @@ int32 psGenerateServerRandom(ssl_t *ssl)
 __CPROVER_requires(ssl == &g_ssl && gh_prng_calls == 0)
 POSTS(ENSURES_CLAUSE)
 CANARY_CLAUSE(__CPROVER_return_value != PS_SUCCESS)
-__CPROVER_assigns(__CPROVER_object_whole(g_ssl.sec.serverRandom), gh_prng_calls)
+__CPROVER_assigns(g_ssl.sec.serverRandom, gh_prng_calls)
 ;
 
 #include "matrixssl/sslEncode.c"
@@ -84,7 +84,7 @@ struct inputs nondet_in(void);
 #endif
 DECL_SNAPSHOT(ssl_t, g_ssl);
 
-/* all other fields of g_ssl stay zero: not read by the function */
+/* all other fields of g_ssl: havocked by DFCC in the cbmc run, zero in the native replay; not read by the function */
 HARNESS_BEGIN
     HARNESS_INPUTS(struct inputs, in);
     int32_t vr_ret;
